@@ -39,6 +39,7 @@ omit [DecidableEq F] in
 theorem neg_ite_sq (c : Bool) (y : F) : (if c then y else -y) ^ 2 = y ^ 2 := by
   cases c <;> simp
 
+omit [DecidableEq F] in
 theorem finish_on_curve {A B Z : F} {sr : F → F → Bool × F} (sgn0 : F → Bool) (hsr : SqrtRatioSpec Z sr)
     {u tv1 tv3 tv4 gxn tv6 : F} (h4 : tv4 ≠ 0) (h6 : tv6 = tv4 ^ 3)
     (hg : gxn = tv3 ^ 3 + A * tv3 * tv4 ^ 2 + B * tv4 ^ 3) (h1 : tv1 = Z * u ^ 2)
